@@ -29,7 +29,11 @@ FORMATS = [None, None, "%Y%m%dT%H%M%S%.3f%z", "%Y-%m-%d %H:%M:%S%.6f %:z", "%F %
            "%H:%M:%S %% lit-text %d/%m/%Y", "%Y%m%d%H%M%S", "%z|%:z|%s", "[%F_%T.%3f]"]
 PSEPS = [":", ":", ":", " | ", "", "@@", "\t", "%%"]
 SEPS = ["", "", "", "|", "\\n", "--\\n", "\\t\\0\\\\", "\\a\\b\\f\\r\\v", "<sep>"]
-ZONES = [("-u", 0, None), ("-z", 19800, "+05:30"), ("-z", -12600, "-03:30"), ("-z", 3600, "+01:00"), ("-z", -28800, "-0800"),
+FINE_FORMATS = ["%Y%m%dT%H%M%S%.6f%z", "%F %T%.9f %:z", "%H:%M:%S.%6f", "%T.%9f", "%s.%f", "%s%f", "%Y-%m-%d %H:%M:%S%.6f",
+                "%d/%m %H:%M:%S%.9f|%3f|%6f|%9f|%f", "%.3f %.6f %.9f"]
+FINE_ZONES = [("-u", 0, None), ("-u", 0, None), ("-z", 19800, "+05:30"), ("-z", -34200, "-09:30"), ("-z", -12600, "-03:30"),
+              ("-l", 20700, "Asia/Kathmandu"), ("-z", 3600, "+01:00")]
+ZONES = [("-u", 0, None), ("-z", -34200, "-09:30"), ("-z", 19800, "+05:30"), ("-z", -12600, "-03:30"), ("-z", 3600, "+01:00"), ("-z", -28800, "-0800"),
          ("-z", 45900, "+12:45"), ("-z", -3600, "-01"), ("-l", 19800, "Asia/Kolkata"), ("-l", 18000 * -1, "Etc/GMT+5"),
          ("-l", 20700, "Asia/Kathmandu")]
 
@@ -100,16 +104,27 @@ def py_strftime(fmt, t_ns, off_s):
 WORDS = ["alpha", "beta", "gamma", "kernel:", "sshd[x]:", "événement", "日志", "ok", "fail", "user=root", "<tab>\t<", "a=b;c", "-- mark --"]
 
 
-def gen_text_file(rng, base_us, nmsg, off_min, final_nl, long_lines):
-    """returns (bytes, [message dict])  -- one notation per file, ISO-8601 with microseconds and zone"""
+def gen_text_file(rng, base_us, nmsg, off_min, final_nl, long_lines, frac=6, dense=False):
+    """returns (bytes, [message dict])  -- one notation per file: ISO-8601 with `frac` (6..9) fractional
+    digits and a numeric zone.  Instants are in ns.
+    dense: consecutive messages differ only below the millisecond (same second and millisecond, different
+    micro/nanoseconds) or have exactly equal instants."""
     msgs, chunks = [], []
-    t = base_us
+    unit = 10 ** (9 - frac)                      # ns per last printed digit
+    t = base_us * 1000
+    t += rng.randrange(0, 1000 // unit + 1) * unit if unit < 1000 else 0
     sign = "-" if off_min < 0 else "+"
     zs = "%s%02d:%02d" % (sign, abs(off_min) // 60, abs(off_min) % 60)
     for k in range(nmsg):
-        t += rng.randrange(1, 3_000_000) * 7 + 1
-        loc = datetime.fromtimestamp(t // 10 ** 6, tz=timezone.utc) + timedelta(minutes=off_min)
-        ts = "%04d-%02d-%02dT%02d:%02d:%02d.%06d%s" % (loc.year, loc.month, loc.day, loc.hour, loc.minute, loc.second, t % 10 ** 6, zs)
+        if dense and k > 0 and rng.random() < 0.85:
+            room = (10 ** 6 - 1 - t % 10 ** 6) // unit          # units left inside the current millisecond
+            d = rng.choice([0, 0, 1, 1, 2, rng.randrange(0, 50), rng.randrange(0, 1000), room])
+            t += min(d, room) * unit
+        else:
+            t += (rng.randrange(1, 3_000_000) * 7 + 1) * 1000 + (rng.randrange(0, 1000 // unit) * unit if unit < 1000 else 0)
+        loc = datetime.fromtimestamp(t // 10 ** 9, tz=timezone.utc) + timedelta(minutes=off_min)
+        fr = ("%09d" % (t % 10 ** 9))[:frac]
+        ts = "%04d-%02d-%02dT%02d:%02d:%02d.%s%s" % (loc.year, loc.month, loc.day, loc.hour, loc.minute, loc.second, fr, zs)
         nw = rng.randrange(1, 6) if (not long_lines or k == 0) else rng.randrange(8, 30)
         first = ts + " " + " ".join(rng.choice(WORDS) for _ in range(nw))
         lines = [first]
@@ -120,7 +135,7 @@ def gen_text_file(rng, base_us, nmsg, off_min, final_nl, long_lines):
             bl[-1] = bl[-1][:-1]
             if not bl[-1]:
                 bl[-1] = b"z"
-        msgs.append(dict(kind=0, t=t * 1000, lines=bl, beg=0, end=len(ts)))
+        msgs.append(dict(kind=0, t=t, lines=bl, beg=0, end=len(ts)))
         chunks += bl
     return b"".join(chunks), msgs
 
@@ -206,6 +221,13 @@ def gen_scenario(rng, idx, scratch, tier_fixture_rate=0.3):
     align = fmode is not None and rng.random() < 0.6
     zone = rng.choice([None, None] + ZONES)
     fmt = rng.choice(FORMATS)
+    # class "finer than a millisecond": every 4th scenario has a fine format, a zone among -u / +05:30 / -09:30 /
+    # the others, and at least one file whose consecutive messages differ only below the millisecond or are equal
+    subms = (idx % 4 == 0)
+    if subms:
+        fmt = rng.choice(FINE_FORMATS)
+        zone = rng.choice(FINE_ZONES)
+        colour = (idx // 4) % 2 == 0
     psep = rng.choice(PSEPS)
     sep = rng.choice(SEPS)
     if colour and "\\e" in sep:
@@ -214,8 +236,10 @@ def gen_scenario(rng, idx, scratch, tier_fixture_rate=0.3):
     base = 1_600_000_000_000_000 + rng.randrange(0, 10 ** 14)
     for i, nm in enumerate(names):
         off_min = rng.choice([0, 0, 60, -60, 330, -210, 765, -480, 345])
-        data, msgs = gen_text_file(rng, base + rng.randrange(0, 50_000_000), rng.randrange(2, 6), off_min,
-                                   rng.random() < 0.7, bs is not None and rng.random() < 0.5)
+        dense = subms and (i == 0 or rng.random() < 0.5)
+        data, msgs = gen_text_file(rng, base + rng.randrange(0, 50_000_000), rng.randrange(3, 8) if dense else rng.randrange(2, 6),
+                                   off_min, rng.random() < 0.7, bs is not None and rng.random() < 0.5,
+                                   frac=rng.choice([6, 6, 7, 8, 9, 9]) if (subms or rng.random() < 0.3) else 6, dense=dense)
         p = os.path.join(d, nm)
         with open(p, "wb") as f:
             f.write(data)
@@ -236,7 +260,7 @@ def gen_scenario(rng, idx, scratch, tier_fixture_rate=0.3):
     if rng.random() < 0.25:
         window = "pending"
     return dict(idx=idx, dir=d, srcs=srcs, bs=bs, colour=colour, fmode=fmode, align=align, zone=zone, fmt=fmt,
-                psep=psep, sep=sep, window=window, fixture=fx)
+                psep=psep, sep=sep, window=window, fixture=fx, subms=subms)
 
 
 def scenario_env(sc):
@@ -501,6 +525,22 @@ def model_stdout_of(workdir, case_text):
     if not m:
         return None
     return bytes(int(x) for x in re.findall(r"\d+", m.group(1).replace("%N", "")))
+
+
+def subms_pairs(sc):
+    """(pairs of consecutive printed messages of one source within the same millisecond but different instants,
+        pairs with exactly equal instants)"""
+    last, a, b = {}, 0, 0
+    for e in sc.get("events", []):
+        t = sc["srcs"][e["src"]]["msgs"][e["mi"]]["t"]
+        p = last.get(e["src"])
+        if p is not None:
+            if p == t:
+                b += 1
+            elif p // 10 ** 6 == t // 10 ** 6:
+                a += 1
+        last[e["src"]] = t
+    return a, b
 
 
 def sc_public(sc):
